@@ -504,7 +504,7 @@ def case(ck, i):
 def _case(ck, i):
     st = ck.state
     r = i % 16
-    u = int(ck.rng().integers(0, ck.pick(4, 60)))
+    u = int(ck.rng().integers(0, ck.pick(4, 24)))
     pool = [rs.ALL_LAYOUTS[(3 * r + k) % len(rs.ALL_LAYOUTS)] for k in range(3)]
     s = draw_structure(ck.rng(100000 + r, u), pool)
     rng = ck.rng(i, 1)
